@@ -961,7 +961,15 @@ class _Simu(_IObserver, _params.Updatable, ABC):
         """
         if isinstance(mesh, str):
             folder = getattr(self, "_Simu__folderMeshes", self.folder)
-            mesh = Load_Mesh(Folder.Join(folder, mesh))
+            mesh = self._Adapt_loaded_mesh(Load_Mesh(Folder.Join(folder, mesh)))
+        return mesh
+
+    def _Adapt_loaded_mesh(self, mesh: Mesh) -> Mesh:
+        """Returns the mesh the simulation works on from a mesh of the history read from a file.
+
+        A mesh file holds plain element groups: a simulation that works on element groups of its own
+        (Beam) overrides this function to rebuild them, as its constructor does.
+        """
         return mesh
 
     def __Update_mesh(self, index: int) -> None:
